@@ -256,7 +256,19 @@ Definition drain_slots (rep cons : qitem) (c : core) : outcome * core :=
   let c1 := set_slots c (snd (drain (c_ids c))) [] in
   notify_all ss rep cons c1.
 
-Definition trunc255 (s : str) : str := firstn 255 s.
+(* the reply text travels as a short string: at most 255 bytes, cut at a UTF-8 character
+   boundary (a continuation byte is 10xxxxxx); a code point has at most 3 of them *)
+Definition is_cont (b : N) : bool := (128 <=? b) && (b <? 192).
+Fixpoint boundary_back (fuel : nat) (s : str) (e : nat) : nat :=
+  match fuel with
+  | O => e
+  | S f => match nth_error s e with
+           | Some b => if is_cont b then boundary_back f s (e - 1) else e
+           | None => e
+           end
+  end.
+Definition trunc255 (s : str) : str :=
+  if (length s <=? 255)%nat then s else firstn (boundary_back 255 s 255) s.
 
 (* ConnectionState::client_exception *)
 Definition client_exception (code : N) (text : str) (c : core) : outcome * core :=
